@@ -5,6 +5,7 @@
 package rtsp
 
 import (
+	"github.com/cnotch/ipchub/utils/simhook"
 	"bytes"
 	"errors"
 	"fmt"
@@ -568,6 +569,7 @@ func (s *Session) onPreprocess(resp *Response, req *Request) (continueProcess bo
 }
 
 func (s *Session) response(resp *Response) error {
+	simhook.BeforeLock(&s.lockW)
 	s.lockW.Lock()
 
 	var err error
